@@ -100,6 +100,26 @@ func c01CrossCheckExtraction(ctx *Ctx, res *Result, reqs []string) {
 			}
 			fmt.Fprintf(&sb, "Example case_%d : map (map okey) (scope_trace [] %s [%s]) = [%s].\nProof. vm_compute. reflexivity. Qed.\n", i, ops, strings.Join(names, "; "), strings.Join(steps, "; "))
 			n++
+		case len(f) == 4 && f[0] == "defall":
+			o, ok1 := c01CoqOps(strings.Split(f[2], "+"))
+			t, ok2 := c01CoqOps(strings.Split(f[3], "+"))
+			var names, obs []string
+			for _, h := range strings.Split(f[1], ".") {
+				names = append(names, c09CoqStr(unhx(h)))
+			}
+			ok := ok1 && ok2
+			for _, ob := range strings.Split(ans[i], ";") {
+				x, ok3 := c01CoqObs(ob)
+				ok = ok && ok3
+				obs = append(obs, x)
+			}
+			if !ok {
+				res.Broken = "cross-check: cannot render " + q(rq) + " -> " + q(ans[i])
+				return
+			}
+			fmt.Fprintf(&sb, "Example case_%d : match sdefine_all (scope_run %s) (scope_run %s) with Ok st => map okey (map (observe st) [%s]) | _ => [] end = [%s].\nProof. vm_compute. reflexivity. Qed.\n",
+				i, t, o, strings.Join(names, "; "), strings.Join(obs, "; "))
+			n++
 		case len(f) == 5 && f[0] == "resolve":
 			a, ok1 := c01CoqOps(strings.Split(f[2], "+"))
 			p, ok2 := c01CoqOps(strings.Split(f[3], "+"))
